@@ -185,11 +185,12 @@ PROPS.update({
 
 # uniform thinning of the case list in the slow lanes (evidence reports the cases each lane executed)
 STRIDES = {
-    "C01": {"quick": {"asan": 3}},
-    "C02": {"quick": {"miri": 2, "asan": 2}},
-    "C08": {"quick": {"miri": 2}},
-    "C09": {"quick": {"asan": 2}},
-    "C10": {"quick": {"miri": 3, "asan": 2}},
+    "C01": {"quick": {"asan": 3}, "thorough": {"asan": 6, "vg": 4}},
+    "C05": {"thorough": {"vg": 2}},
+    "C02": {"quick": {"miri": 2, "asan": 2}, "thorough": {"asan": 3, "vg": 3, "miri": 3}},
+    "C08": {"quick": {"miri": 2}, "thorough": {"asan": 2, "vg": 3, "miri": 2}},
+    "C09": {"quick": {"asan": 2}, "thorough": {"asan": 3, "vg": 3, "miri": 2}},
+    "C10": {"quick": {"miri": 3, "asan": 2}, "thorough": {"asan": 3, "vg": 3, "miri": 3}},
     "C04": {"quick": {"miri": 2}},
     "C11": {"quick": {"miri": 2}},
     "C13": {"quick": {"asan": 3, "miri": 2}},
